@@ -623,6 +623,12 @@ def _recursion_semantics(db, rep):
                                         return ('it', v, 0)
                                 if cs == 'std::to_string':
                                     return b'n'
+                                if 'obj' in n and last in ('IsCollection', 'IsTuple', 'IsElement', 'B', 'Cardinality', 'IsEmpty') and not cs.startswith('std::'):
+                                    # the three values of the domain are sets: two of the same size, one larger (what a termination test may look at
+                                    # besides equality)
+                                    recv = it.eval(fn, S[n['obj']], env)
+                                    if isinstance(recv, int) and not isinstance(recv, bool) and recv in D:
+                                        return {'IsCollection': True, 'IsTuple': False, 'IsElement': False, 'B': recv, 'Cardinality': (1, 1, 2)[recv], 'IsEmpty': False}[last]
                                 if cs.startswith(NS + 'SyntaxTree::Cursor::') and last in ('Child', 'get'):
                                     return Obj(__kind__='cursor')
                                 if n['k'] in ('CXXConstructExpr', 'CXXTemporaryObjectExpr') and len(n.get('args', [])) == 1:
